@@ -275,6 +275,27 @@ fn r_result(r: &ResultWithDeserializedMetadata) -> Result<String, String> {
                 }
             }
             // typed deserialisation of the same rows: rows_iter::<Row>() until the first error
+            if md.col_specs().is_empty() {
+                // rows without columns carry no bytes: the iterator must yield `rows_count` empty rows
+                // (walked up to a cap: the count is a wire integer up to 2^31 - 1)
+                let mut z = 0usize;
+                let mut tv = None;
+                match rows.rows_iter::<Row>() {
+                    Err(_) => tv = Some("typecheck".to_string()),
+                    Ok(it) => {
+                        for row in it.take(1_000_000) {
+                            match row {
+                                Ok(r) if r.columns.is_empty() => z += 1,
+                                _ => {
+                                    tv = Some(format!("zerr@{}", z));
+                                    break;
+                                }
+                            }
+                        }
+                    }
+                }
+                TV.with(|t| t.set(tv.unwrap_or(format!("z{}", z))));
+            }
             if !md.col_specs().is_empty() {
                 let mut tv = "ok".to_string();
                 match rows.rows_iter::<Row>() {
@@ -509,7 +530,16 @@ fn decode(cfg: &Cfg, frame: &[u8]) -> String {
             match vt.learn_from_payload("ks", "t", p, &std::collections::HashMap::new()) {
                 None => "none".to_string(),
                 Some(Err(c)) => format!("err:{}", c),
-                Some(Ok(n)) => format!("ok:{}", n),
+                Some(Ok(_)) => match vt.table_view("ks", "t") {
+                    // no node is known: every replica stays in the tablet's unresolved list, as received
+                    Some((_, views)) if views.len() == 1 => format!(
+                        "ok:{},{},{}",
+                        hex_i(views[0].first as i128),
+                        hex_i(views[0].last as i128),
+                        lst(views[0].failed.clone().unwrap_or_default().iter(), |(u, sh)| format!("({},{})", hx(u.as_bytes()), sh))
+                    ),
+                    _ => "ok:no-single-tablet".to_string(),
+                },
             }
         }
     };
@@ -634,58 +664,167 @@ fn run_case(case: &str) -> String {
 }
 
 // ------------------------------------------------------------------ child
-fn child_main(file: &str, start: usize, end: usize) {
-    let cases: Vec<String> = std::fs::read_to_string(file).unwrap().lines().map(|s| s.to_string()).collect();
-    let h = std::thread::Builder::new()
-        .stack_size(2 << 20) // Tokio's default worker stack
+/// status without the measurement fields
+fn outcome_only(r: &str) -> String {
+    r.split_whitespace().filter(|f| !(f.starts_with("m=") || f.starts_with("t=") || f.starts_with("dc="))).collect::<Vec<_>>().join(" ")
+}
+fn worker(stack: usize) -> (std::sync::mpsc::Sender<String>, std::sync::mpsc::Receiver<String>) {
+    let (tx, rx) = std::sync::mpsc::channel::<String>();
+    let (rtx, rrx) = std::sync::mpsc::channel::<String>();
+    std::thread::Builder::new()
+        .stack_size(stack)
         .spawn(move || {
-            let out = std::io::stdout();
-            for i in start..end.min(cases.len()) {
-                let r = run_case(&cases[i]);
-                let mut o = out.lock();
-                writeln!(o, "{} {}", i, r).unwrap();
-                o.flush().unwrap();
+            for c in rx {
+                if rtx.send(run_case(&c)).is_err() {
+                    break;
+                }
             }
         })
         .unwrap();
-    let _ = h.join();
+    (tx, rrx)
+}
+fn small_stack() -> usize {
+    std::env::var("VERIF_C08_SMALL_STACK_KB").ok().and_then(|v| v.parse::<usize>().ok()).unwrap_or(512) << 10
+}
+/// Every case is decoded on a 2 MiB-stack thread (Tokio's default worker stack; this is the run that is
+/// measured and reported) and, unless `bigonly`, once more on a 256 KiB-stack thread: the recursion
+/// depth accounting of the model (<= 257 levels) predicts that an eighth of the stack is plenty.
+fn child_main(file: &str, start: usize, end: usize, bigonly: bool) {
+    use std::io::BufRead as _;
+    let f = std::io::BufReader::new(std::fs::File::open(file).unwrap());
+    let cases: Vec<String> = f.lines().skip(start).take(end.saturating_sub(start)).map(|l| l.unwrap()).collect();
+    let (btx, brx) = worker(2 << 20);
+    let (stx, srx) = worker(small_stack());
+    let out = std::io::stdout();
+    {
+        let mut o = out.lock();
+        writeln!(o, "ready").unwrap();
+        o.flush().unwrap();
+    }
+    for (k, c) in cases.iter().enumerate() {
+        btx.send(c.clone()).unwrap();
+        let r = match brx.recv() {
+            Ok(r) => r,
+            Err(_) => std::process::abort(),
+        };
+        let small = if bigonly || c.starts_with('X') {
+            "-"
+        } else {
+            stx.send(c.clone()).unwrap();
+            match srx.recv() {
+                Ok(r2) if outcome_only(&r2) == outcome_only(&r) => "ok",
+                Ok(_) => "differ",
+                Err(_) => std::process::abort(),
+            }
+        };
+        let mut o = out.lock();
+        writeln!(o, "{} {} s={}", start + k, r, small).unwrap();
+        o.flush().unwrap();
+    }
 }
 
 // ------------------------------------------------------------------ parent: run cases in children
+fn ulimit_kb() -> u64 {
+    // 8 GiB: everything the property judges is far below or far above; VERIF_C08_ULIMIT_KB for experiments
+    std::env::var("VERIF_C08_ULIMIT_KB").ok().and_then(|v| v.parse().ok()).unwrap_or(8 << 20)
+}
+struct Child {
+    ch: std::process::Child,
+    rx: std::sync::mpsc::Receiver<String>,
+    rd: Option<std::thread::JoinHandle<()>>,
+}
+enum Got {
+    Line(String),
+    Timeout,
+    Died(String),
+}
+impl Child {
+    /// None: the child did not come up within two minutes (environment trouble, not the decoders)
+    fn start(exe: &std::path::Path, infile: &str, lo: usize, hi: usize, bigonly: bool) -> Option<Child> {
+        let cmd = format!(
+            "ulimit -v {}; exec '{}' --child '{}' {} {}{}",
+            ulimit_kb(), exe.display(), infile, lo, hi, if bigonly { " bigonly" } else { "" }
+        );
+        let mut ch = std::process::Command::new("sh")
+            .arg("-c")
+            .arg(&cmd)
+            .stdout(std::process::Stdio::piped())
+            .stderr(std::process::Stdio::null())
+            .spawn()
+            .ok()?;
+        let so = ch.stdout.take().unwrap();
+        let (tx, rx) = std::sync::mpsc::channel::<String>();
+        let rd = std::thread::spawn(move || {
+            for l in std::io::BufReader::new(so).lines() {
+                match l {
+                    Ok(l) => {
+                        if tx.send(l).is_err() {
+                            break;
+                        }
+                    }
+                    Err(_) => break,
+                }
+            }
+        });
+        let mut c = Child { ch, rx, rd: Some(rd) };
+        match c.get(120) {
+            Got::Line(l) if l == "ready" => Some(c),
+            _ => {
+                c.stop();
+                None
+            }
+        }
+    }
+    fn get(&mut self, timeout_s: u64) -> Got {
+        match self.rx.recv_timeout(std::time::Duration::from_secs(timeout_s)) {
+            Ok(l) => Got::Line(l),
+            Err(std::sync::mpsc::RecvTimeoutError::Timeout) => Got::Timeout,
+            Err(std::sync::mpsc::RecvTimeoutError::Disconnected) => {
+                let st = self.ch.wait().ok();
+                Got::Died(st.map(|s| format!("{}", s).replace(' ', "_")).unwrap_or_default())
+            }
+        }
+    }
+    fn stop(&mut self) {
+        let _ = self.ch.kill();
+        let _ = self.ch.wait();
+        if let Some(rd) = self.rd.take() {
+            let _ = rd.join();
+        }
+    }
+}
+fn env_signal(how: &str) -> bool {
+    // killed from outside (OOM killer, operator): not something the decoders do to themselves
+    how.contains("SIGKILL") || how.contains("SIGTERM") || how.contains("signal:_9") || how.contains("signal:_15")
+}
 /// Second opinion on a case that made a child die / stall: the case alone in a fresh child with a
-/// generous timeout (a loaded machine must not turn a slow process start into a `timeout`).
+/// generous timeout; if it dies again, once more without the small-stack run to tell which of the
+/// two runs died.
 fn run_alone(exe: &std::path::Path, infile: &str, idx: usize, timeout_s: u64) -> String {
-    let cmd = format!("ulimit -v 8388608; exec '{}' --child '{}' {} {}", exe.display(), infile, idx, idx + 1);
-    let mut ch = match std::process::Command::new("sh")
-        .arg("-c")
-        .arg(&cmd)
-        .stdout(std::process::Stdio::piped())
-        .stderr(std::process::Stdio::null())
-        .spawn()
-    {
-        Ok(c) => c,
-        Err(_) => return "error spawn m=0 t=0".into(),
-    };
-    let so = ch.stdout.take().unwrap();
-    let (tx, rx) = std::sync::mpsc::channel::<String>();
-    let rd = std::thread::spawn(move || {
-        let mut l = String::new();
-        if std::io::BufReader::new(so).read_line(&mut l).is_ok() {
-            let _ = tx.send(l);
+    let one = |bigonly: bool| -> Got {
+        match Child::start(exe, infile, idx, idx + 1, bigonly) {
+            None => Got::Died("env-child-start".into()),
+            Some(mut c) => {
+                let g = c.get(timeout_s);
+                c.stop();
+                g
+            }
         }
-    });
-    let res = match rx.recv_timeout(std::time::Duration::from_secs(timeout_s)) {
-        Ok(l) if !l.trim().is_empty() => l.trim_end().split_once(' ').map(|(_, r)| r.to_string()).unwrap_or_default(),
-        Ok(_) | Err(std::sync::mpsc::RecvTimeoutError::Disconnected) => {
-            let st = ch.wait().ok();
-            format!("abort {} m=0 t=0", st.map(|s| format!("{}", s).replace(' ', "_")).unwrap_or_default())
-        }
-        Err(std::sync::mpsc::RecvTimeoutError::Timeout) => "timeout m=0 t=0".to_string(),
     };
-    let _ = ch.kill();
-    let _ = ch.wait();
-    let _ = rd.join();
-    res
+    let strip = |l: String| l.split_once(' ').map(|(_, r)| r.to_string()).unwrap_or_default();
+    match one(false) {
+        Got::Line(l) => strip(l),
+        Got::Timeout => "timeout m=0 t=0 s=-".into(),
+        Got::Died(how) if how == "env-child-start" => "notrun env-child-start m=0 t=0 s=-".into(),
+        Got::Died(how) => match one(true) {
+            // the measured 2 MiB run is fine: it was the 256 KiB run that died
+            Got::Line(l) => strip(l).replace(" s=-", " s=overflow"),
+            Got::Timeout => "timeout m=0 t=0 s=-".into(),
+            Got::Died(how2) if env_signal(&how2) || how2 == "env-child-start" => format!("notrun env-{} m=0 t=0 s=-", how2),
+            Got::Died(_) if env_signal(&how) => format!("notrun env-{} m=0 t=0 s=-", how),
+            Got::Died(how2) => format!("abort {} m=0 t=0 s=-", how2),
+        },
+    }
 }
 
 fn run_in_children(cases: &[String], infile: &str, per_input_timeout_s: u64, workers: usize) -> Vec<String> {
@@ -704,35 +843,24 @@ fn run_in_children(cases: &[String], infile: &str, per_input_timeout_s: u64, wor
         handles.push(std::thread::spawn(move || {
             let mut res: Vec<(usize, String)> = vec![];
             let mut next = lo;
+            let mut start_failures = 0;
             while next < hi {
-                // address-space limit: an out-of-proportion allocation fails fast in the child
-                // (8 GiB: a Snappy body may legitimately announce up to 4 GiB, which the snap crate
-                // reserves untouched; everything the property judges is far below or far above)
-                let cmd = format!("ulimit -v 8388608; exec '{}' --child '{}' {} {}", exe.display(), infile, next, hi);
-                let mut ch = std::process::Command::new("sh")
-                    .arg("-c")
-                    .arg(&cmd)
-                    .stdout(std::process::Stdio::piped())
-                    .stderr(std::process::Stdio::null())
-                    .spawn()
-                    .expect("spawn child");
-                let so = ch.stdout.take().unwrap();
-                let (tx, rx) = std::sync::mpsc::channel::<String>();
-                let rd = std::thread::spawn(move || {
-                    for l in std::io::BufReader::new(so).lines() {
-                        match l {
-                            Ok(l) => {
-                                if tx.send(l).is_err() {
-                                    break;
-                                }
+                let mut ch = match Child::start(&exe, &infile, next, hi, false) {
+                    Some(c) => c,
+                    None => {
+                        start_failures += 1;
+                        if start_failures >= 3 {
+                            for i in next..hi {
+                                res.push((i, "notrun env-child-start m=0 t=0 s=-".into()));
                             }
-                            Err(_) => break,
+                            break;
                         }
+                        continue;
                     }
-                });
+                };
                 loop {
-                    match rx.recv_timeout(std::time::Duration::from_secs(per_input_timeout_s)) {
-                        Ok(l) => {
+                    match ch.get(per_input_timeout_s) {
+                        Got::Line(l) => {
                             let (i, r) = l.split_once(' ').unwrap_or((&l, ""));
                             if let Ok(i) = i.parse::<usize>() {
                                 res.push((i, r.to_string()));
@@ -742,16 +870,9 @@ fn run_in_children(cases: &[String], infile: &str, per_input_timeout_s: u64, wor
                                 break;
                             }
                         }
-                        Err(std::sync::mpsc::RecvTimeoutError::Timeout) => {
-                            let _ = ch.kill();
-                            res.push((next, run_alone(&exe, &infile, next, 3 * per_input_timeout_s)));
-                            next += 1;
-                            break;
-                        }
-                        Err(std::sync::mpsc::RecvTimeoutError::Disconnected) => {
-                            // the child died while working on case `next`
+                        Got::Timeout | Got::Died(_) => {
+                            ch.stop();
                             if next < hi {
-                                let _ = ch.wait();
                                 res.push((next, run_alone(&exe, &infile, next, 3 * per_input_timeout_s)));
                                 next += 1;
                             }
@@ -759,9 +880,7 @@ fn run_in_children(cases: &[String], infile: &str, per_input_timeout_s: u64, wor
                         }
                     }
                 }
-                let _ = ch.kill();
-                let _ = ch.wait();
-                let _ = rd.join();
+                ch.stop();
             }
             res
         }));
@@ -918,6 +1037,13 @@ fn known_reproducers() -> Vec<String> {
         body.extend_from_slice(&[0x10, 0x41, 0, 0, 0]);
         add("2l", frame(1, 2, &body));
     }
+    // Snappy body whose length header claims 4 GiB / 1 GiB / a plausible size (open finding
+    // snappy-claimed-size-reservation: the snap crate sizes its buffer from it)
+    for hdr in [&[0xffu8, 0xff, 0xff, 0xff, 0x0f][..], &[0x80, 0x80, 0x80, 0x80, 0x04][..], &[0x20][..]] {
+        let mut body = hdr.to_vec();
+        body.extend_from_slice(&[0x00, 0x41]);
+        add("2s", frame(1, 2, &body));
+    }
     // u16 counts without data: string list / multimap / warnings / payload, nested udt / tuple 129 levels
     add("2n", frame(0, 6, &[0xFF, 0xFF]));
     add("2n", frame(0, 6, &[0xFF, 0xFF, 0, 1, b'a', 0xFF, 0xFF]));
@@ -957,7 +1083,80 @@ fn known_reproducers() -> Vec<String> {
     b.extend_from_slice(&be32(0));
     b.extend_from_slice(&be32(i32::MAX));
     add("2n", frame(0, 8, &b));
-    v.into_iter().map(|(ft, mode, f)| format!("K {} {} {}", ft, mode, hex_bytes(&f))).collect()
+    // every reproducer under both feature sets
+    let mut out: Vec<String> = vec![];
+    for (_, mode, f) in &v {
+        for ft in [FT0, "rl:4321,mid:1"] {
+            out.push(format!("K {} {} {}", ft, mode, hex_bytes(f)));
+        }
+    }
+    out
+}
+
+/// custom-type strings that parse (every branch of get_complex_abstract_type), used as they are and
+/// with character-level damage (kind S); the column gets one row with a null cell
+fn custom_type_cases(r: &mut Rng) -> Vec<String> {
+    let m = "org.apache.cassandra.db.marshal.";
+    let good: Vec<String> = vec![
+        format!("{m}VectorType({m}FloatType , 3)"),
+        format!("{m}VectorType({m}UTF8Type,2)"),
+        "VectorType(VectorType(Int32Type,2),4)".into(),
+        format!("{m}ListType({m}VectorType({m}Int32Type, 3))"),
+        format!("{m}MapType({m}UTF8Type,{m}ListType({m}LongType))"),
+        format!("{m}SetType({m}TimeUUIDType)"),
+        format!("{m}TupleType({m}Int32Type,{m}UTF8Type, {m}BooleanType)"),
+        "TupleType(Int32Type)".into(),
+        format!("{m}FrozenType({m}ListType({m}SetType({m}Int32Type)))"),
+        format!("{m}VectorType({m}FrozenType({m}ListType({m}FrozenType({m}SetType({m}Int32Type)))),2)"),
+        format!("{m}UserType(ks,6e616d65,61:{m}Int32Type,62:{m}UTF8Type)"),
+        format!("{m}UserType(ks,75,66:{m}FrozenType({m}UserType(ks,76,67:{m}ListType({m}DoubleType))))"),
+        "UserType(k_s.1,,:BytesType)".into(),
+        format!("7b:{m}Int32Type"),
+        "1f:ListType(2a:ShortType)".into(),
+        " ListType ( Int32Type ) ".into(),
+        "MapType(Int32Type Int32Type)".into(),
+        "".into(),
+        "DateType".into(), "SimpleDateType".into(), "CounterColumnType".into(), "DecimalType".into(),
+        "DurationType".into(), "InetAddressType".into(), "IntegerType".into(), "ByteType".into(),
+        "TimeType".into(), "TimestampType".into(), "UUIDType".into(), "AsciiType".into(), "DoubleType".into(),
+        "TinyIntType".into(), "SmallIntType".into(),
+    ];
+    let alphabet: &[u8] = b"(),: .:0a9fZ_-+&$\tx";
+    let mut out = vec![];
+    let mk = |s: &[u8]| {
+        let mut ty = be16(0).to_vec();
+        ty.extend_from_slice(&s16(s));
+        let mut f = rows_with_type(&ty);
+        let n = f.len();
+        f[n - 4..].copy_from_slice(&be32(1));
+        f.extend_from_slice(&be32(-1));
+        let l = (f.len() - 9) as u32;
+        f[5..9].copy_from_slice(&l.to_be_bytes());
+        format!("S {} 2n {}", FT0, hex_bytes(&f))
+    };
+    for g in &good {
+        out.push(mk(g.as_bytes()));
+        for _ in 0..40 {
+            let mut b = g.as_bytes().to_vec();
+            for _ in 0..r.range(1, 3) {
+                if b.is_empty() {
+                    b.push(*r.pick(alphabet));
+                    continue;
+                }
+                let i = r.below(b.len() as u64) as usize;
+                match r.below(4) {
+                    0 => {
+                        b.remove(i);
+                    }
+                    1 => b.insert(i, *r.pick(alphabet)),
+                    2 => b[i] = *r.pick(alphabet),
+                    _ => b.truncate(i),
+                }
+            }
+            out.push(mk(&b));
+        }
+    }
+    out
 }
 
 fn mutate(r: &mut Rng, f: &[u8]) -> Vec<u8> {
@@ -1048,6 +1247,7 @@ fn mutate(r: &mut Rng, f: &[u8]) -> Vec<u8> {
 fn gen_cases(a: &Args) -> Vec<String> {
     let mut r = Rng::new(a.seed);
     let mut cases = known_reproducers();
+    cases.extend(custom_type_cases(&mut r));
     // (a) well-formed frames from the extracted encoder
     let nbase = (a.n / 60).max(50);
     let drv = std::env::var("VERIF_C08_DRIVER").unwrap_or_else(|_| "/verif/ocaml/c08/driver".into());
@@ -1096,7 +1296,7 @@ fn gen_cases(a: &Args) -> Vec<String> {
         }
         let big = f.len() > 4000;
         // (b) every truncation point (sampled for long frames)
-        let budget = if big { 6 } else { per * 2 / 5 };
+        let budget = if big { 6 } else { per / 8 + 2 };
         if f.len() <= budget {
             for k in 0..f.len() {
                 cases.push(format!("T {} {} {}", ft, mode, hex_bytes(&f[..k])));
@@ -1109,7 +1309,7 @@ fn gen_cases(a: &Args) -> Vec<String> {
         }
         // body cut with a consistent header length
         if f.len() > 9 {
-            for _ in 0..(if big { 2 } else { per / 8 + 1 }) {
+            for _ in 0..(if big { 2 } else { per / 4 + 1 }) {
                 let k = r.range(9, (f.len() - 1) as u64) as usize;
                 let mut g = f[..k].to_vec();
                 let l = (k - 9) as u32;
@@ -1118,7 +1318,7 @@ fn gen_cases(a: &Args) -> Vec<String> {
             }
         }
         // (c) mutations
-        for _ in 0..(if big { 4 } else { per * 2 / 5 }) {
+        for _ in 0..(if big { 4 } else { per / 2 }) {
             let mut m = mutate(&mut r, f);
             if r.chance(1, 4) {
                 m = mutate(&mut r, &m);
@@ -1126,7 +1326,7 @@ fn gen_cases(a: &Args) -> Vec<String> {
             cases.push(format!("M {} {} {}", ft, mode, hex_bytes(&m)));
         }
         // compressed variants (real codec), also mutated and under the wrong / no codec
-        if f.len() > 9 && !big && r.chance(1, 3) {
+        if f.len() > 9 && !big && r.chance(1, 2) {
             let comp = if r.bool() { Compression::Lz4 } else { Compression::Snappy };
             let mut g = f[..9].to_vec();
             g[1] |= 1;
@@ -1137,8 +1337,18 @@ fn gen_cases(a: &Args) -> Vec<String> {
                 cases.push(format!("C {} {}{} {}", ft, v, c, hex_bytes(&g)));
                 let other = *r.pick(&['n', 'l', 's']);
                 cases.push(format!("C {} {}{} {}", ft, v, other, hex_bytes(&g)));
-                let m = mutate(&mut r, &g);
-                cases.push(format!("C {} {}{} {}", ft, v, c, hex_bytes(&m)));
+                for _ in 0..3 {
+                    let m = mutate(&mut r, &g);
+                    cases.push(format!("C {} {}{} {}", ft, v, c, hex_bytes(&m)));
+                }
+                // the compressed body cut, with a consistent header length
+                if g.len() > 10 {
+                    let k = r.range(9, (g.len() - 1) as u64) as usize;
+                    let mut t = g[..k].to_vec();
+                    let l = (k - 9) as u32;
+                    t[5..9].copy_from_slice(&l.to_be_bytes());
+                    cases.push(format!("C {} {}{} {}", ft, v, c, hex_bytes(&t)));
+                }
             }
         }
     }
@@ -1165,7 +1375,7 @@ fn main() {
     let argv: Vec<String> = std::env::args().collect();
     if argv.len() >= 5 && argv[1] == "--child" {
         quiet_panics();
-        child_main(&argv[2], argv[3].parse().unwrap(), argv[4].parse().unwrap());
+        child_main(&argv[2], argv[3].parse().unwrap(), argv[4].parse().unwrap(), argv.get(5).map(|s| s == "bigonly").unwrap_or(false));
         return;
     }
     let a = parse_args();
@@ -1179,7 +1389,7 @@ fn main() {
     let _ = std::fs::remove_file(&infile);
     let mut out = Out::create(&a.out);
     for (c, r) in cases.iter().zip(res.iter()) {
-        out.case(c, if r.is_empty() { "error no-result m=0 t=0" } else { r });
+        out.case(c, if r.is_empty() { "notrun env-no-result m=0 t=0 s=-" } else { r });
     }
     out.finish();
 }
